@@ -641,9 +641,14 @@ BUDGET = {
 }
 
 
+# coverage-guided stage: same strategy, same oracle, bytes chosen by libFuzzer (cmv/fuzz.py)
+FUZZ_TARGETS = {"docs": (lambda: doc_case(), lambda c, stats: eval_docs(c, stats))}
+FUZZ_BUDGET = {"quick": (1, 2000), "thorough": (8, 100000)}
+
+
 def shards(tier, seed):
     b = BUDGET[tier]
-    out = []
+    out = [{"kind": "fuzz", "runs": FUZZ_BUDGET[tier][1], "seed": seed * 1000 + 900 + i} for i in range(FUZZ_BUDGET[tier][0])]
     for i in range(16):
         out.append({"kind": "e2e", "n": b["e2e"], "seed": seed * 1000 + 200 + i})
     for i in range(8):
@@ -655,6 +660,10 @@ def shards(tier, seed):
 
 def run_shard(spec):
     stats = core.Stats()
+    if spec["kind"] == "fuzz":
+        from .. import fuzz
+
+        return fuzz.fuzz_shard(__name__, "docs", spec["runs"], spec["seed"])
     if spec["kind"] == "algebra":
         run_algebra(stats, spec["n"], spec["seed"], spec["steps"])
     elif spec["kind"] == "docs":
